@@ -10,6 +10,18 @@ BASE = ("cd /repo && env -u TRACKLIB_VERIF_TRACE /venv/bin/python -m pytest -ra 
 
 # pid -> (module(s), technique, level text, level note, design ref)
 CHECKS = {
+    "C13": ("IOLayout", "TLA+ model of the file layer (relative column order of the writer vs absolute indices of the reader, "
+            "class-level time formats with explicit save / install / restore steps, GPX forcing the ISO format, network rows "
+            "and header skipping) checked by TLC; every configuration, history and network printed by the model with its "
+            "expected read-back is replayed through real files (spec->code)",
+            "TLC: round-trip law on all 1368 column-permutation x separator x coordinate-system x time-format configurations, "
+            "formats restored on all histories of 4 (thorough 5) public calls, network round trip for header 0/1 (three refuted "
+            "variants as self-tests). All 1368 configurations (two stress-value tracks each, WKT round trip), all histories "
+            "(two CSV files, one GPX file, format changes in between) and all 17 820 small networks are written and read "
+            "back for real: count, order, coordinates at the written precision, timestamps to the second, global formats after "
+            "each call, nodes / edges / end nodes / orientations / geometries.",
+            "TLC 1.8; permutation ids and matching time format are preconditions; formatting fidelity on a finite lattice "
+            "of stress values; writeToCsv(TrackFormat) is unfinished code and not claimed", "5/C13"),
     "C05": ("Resample", "TLA+ definition of temporal / spatial linear resampling (requested instants, kept instants, unique bracket, "
             "exact rational interpolant) + transcription of the forward-only running_id cursor with its continue / break, checked "
             "by TLC for every small track and chronologically ordered request; rows recorded from Track.resample and // judged "
